@@ -102,12 +102,23 @@ def generate(r, small=False, max_streams=None):
     pat, zones = gen_zones(r)
     streams = gen_streams(r, n, nice, zones, dup_names=r.random() < 0.15)
     prob = dict(streams=streams, utilities=gen_utilities(r, streams, nice))
-    if r.random() < 0.12:
-        # explicit zone tree consistent with flat labels
+    if r.random() < 0.18:
+        # explicit zone tree: root + process zones (+ optionally one nested level); generic or specific type names;
+        # some streams attached to the root itself (the service then creates a process zone for them)
         labels = sorted({s["zone"].split("/")[0] for s in streams})
-        prob["zone_tree"] = dict(name="Site", type="Site", children=[dict(name=z, type="Process Zone", children=None) for z in labels])
+        root = r.choice(["Site", "Site", "Works"])
+        generic = r.random() < 0.5
+        kids = []
+        for z in labels:
+            node = dict(name=z, type=r.choice(["Zone", "Sub-Zone", "Zone"]) if generic else "Process Zone", children=None)
+            if r.random() < 0.25:
+                node["children"] = [dict(name=z + "-1", type="Zone" if generic else "Process Zone", children=None)]
+            kids.append(node)
+        prob["zone_tree"] = dict(name=root, type=r.choice(["Zone", "Site", ""]) if generic else "Site", children=kids)
         for s in streams:
             s["zone"] = s["zone"].split("/")[0]
+            if r.random() < 0.15:
+                s["zone"] = root  # attached to the root zone
     return prob
 
 
@@ -125,6 +136,12 @@ def gen_options(r, kind="c11"):
             opts[f] = (r.random() < 0.75) if f != "DO_BALANCED_CC" else (r.random() < 0.5)
     if r.random() < 0.2:
         opts["DT_CONT"] = float(r.choice([0, 5, 10]))
+    # numeric options inside their documented ranges
+    for key, vals, pw in (("DECIMAL_PLACES", [1, 3, 4], 0.12), ("DT_PHASE_CHANGE", [0.05, 0.5, 1.0], 0.08), ("HTC", [0.5, 2.0], 0.06),
+                          ("UTILITY_PRICE", [20.0, 80.0], 0.06), ("ANNUAL_OP_TIME", [4000.0, 8760.0], 0.06), ("T_ENV", [10.0, 25.0], 0.06),
+                          ("DISCOUNT_RATE", [0.05, 0.1], 0.04), ("SERV_LIFE", [10.0, 25.0], 0.04)):
+        if r.random() < pw:
+            opts[key] = r.choice(vals)
     if r.random() < 0.15:
         opts["REFRIGERANTS"] = r.choice(["water,ammonia", "R134a", "propane,water"])
     return opts or None
